@@ -9,6 +9,13 @@ from mpfcases import V
 LEVEL = "proof"
 FNS = ["mpi_add", "mpi_sub", "mpi_mul", "mpi_div", "mpi_neg", "mpi_pos", "mpi_abs", "mpi_square", "mpi_sqrt",
        "mpi_pow_int", "mpi_delta", "mpi_mid"]
+# elementary functions on intervals: the model takes the point-function values recorded from the live call as inputs
+ELEM = ["mpi_outward", "mpi_exp_from", "mpi_log_from", "mpi_cos_sin_from", "mpi_finalize", "mpi_tan_from", "mpi_cot_from",
+        "mpi_pow_from", "mpi_cosh_sinh_from"]
+
+
+def make(rng, fn, n):
+    return allcases.make(rng, fn, max(50, n // 4) if fn in ELEM else n)
 TAGS = {"CONTAIN", "ROUND"}
 
 
@@ -117,8 +124,8 @@ def api_level(rep, tier_, rng):
 
 
 def run(rep, tier_, rng):
-    run_engine_a(rep, "C14", tier_, rng, FNS, TAGS, n_quick=500, n_thorough=8000, extra=api_level,
-                 make=allcases.make, spec=allcases.spec)
+    run_engine_a(rep, "C14", tier_, rng, FNS + ELEM, TAGS, n_quick=500, n_thorough=8000, extra=api_level,
+                 make=make, spec=allcases.spec)
     from props import c14e
     rep.coverage.update(c14e.run_elementary(rep, tier_, rng, budget=(60 if tier_ == "quick" else 600)))
     rep.assumptions.append("elementary functions on intervals (exp/log/sin/cos/tan/atan2/x**y/sqrt...) are decided per sampled interval by universally quantified Coq Interval certificates (exploration level for that part); the gamma family is not decided here")
